@@ -97,6 +97,25 @@ def h_blocks_lazy_snapshot(ctx, cfg):
   _eqblocks(ctx, got, want, "snapshot-at-yield")
 
 
+def h_blocks_live_input(ctx, cfg):
+  """The input is read as it is *at the moment each block is produced*: a list (or deque) that grows after the first
+  block was taken is blocked like any live iterable - the later blocks and the padded tail follow the grown input."""
+  import collections
+  from audiolazy.lazy_misc import blocks
+  L = ctx.split("L", 1, cfg["L"]); size = ctx.split("size", 1, cfg["S"]); hop = ctx.split("hop", 1, cfg["H"])
+  extra_n = ctx.split("extra", 1, cfg["E"])
+  n = L.__index__()
+  if n < int(size): ctx.exclude("no complete first block: the input is exhausted before anything can be appended")
+  items = ctx.elems("e", n); extra = ctx.elems("x", extra_n.__index__()); pad = ctx.elem("pad")
+  data = list(items) if cfg["kind"] == "list" else collections.deque(items)
+  gen = blocks(data, size, hop, pad)
+  got = [list(next(gen))]
+  data.extend(extra)                       # the source grows while its blocks are being consumed
+  for b in gen: got.append(list(b))
+  want = ref_blocks(list(items) + list(extra), size.__index__(), hop.__index__(), pad)
+  _eqblocks(ctx, got, want, "block-k-is-items-k*hop..k*hop+size-1-at-the-moment-it-is-produced")
+
+
 def h_zero_pad(ctx, cfg):
   from audiolazy.lazy_misc import zero_pad
   L = ctx.split("L", 0, cfg["L"]); left = ctx.int("left", 0, cfg["P"]); right = ctx.int("right", 0, cfg["P"])
@@ -125,6 +144,7 @@ def tasks(tier, seed):
     for via in ("func", "stream", "positional"):
       T.append(("h_blocks", {"via": via, "hop": "int", "L": L - 2, "S": S - 1, "H": H - 2, "pad": pad, "hetero": pad == "None"}))
   T.append(("h_blocks_lazy_snapshot", {"L": L, "S": S, "H": H}))
+  T.append(("h_blocks_live_input", {"kind": "list", "L": 5 if not big else 7, "S": 3, "H": 5, "E": 3 if not big else 4}))
   for kw in (True, False):
     T.append(("h_zero_pad", {"L": 5 if big else 4, "P": 4 if big else 3, "kw": kw}))
   return T
